@@ -517,6 +517,6 @@ SUBCHECKS = {"machine": stateful.replay(Interp), "exhaustive": check_exh}
 
 def run(ctx):
     quick = ctx.tier == "quick"
-    total = 1200 if quick else 24000
+    total = 2400 if quick else 24000
     stateful.run_machine(ctx, "machine", Interp, inits(8 if quick else 25), RULES, total // ctx.nshards, 30 if quick else 60)
     runner.run_items(ctx, "exhaustive", exhaustive_items(ctx.tier), check_exh)
